@@ -19,4 +19,4 @@ for line in sys.stdin:
         out = {"smiles": g.smiles, "weight": float(g.weight), "str": str(m), "noext": m.generate_string(False), "generable": bool(m.generable)}
     except Exception as exc:
         out = {"error": type(exc).__name__ + ": " + str(exc)[:100]}
-    print(json.dumps(out), flush=True)
+    print("@@C10 " + json.dumps(out), flush=True)     # marked: the library (or a changed version of it) may print to stdout too
